@@ -861,6 +861,15 @@ where
         Ok(options)
     }
 
+    /// Remove every job which is still waiting in this worker's queue (factory shutdown)
+    pub(crate) fn take_queued_jobs(&mut self) -> VecDeque<Job<TKey, TMsg>> {
+        let jobs = std::mem::take(&mut self.message_queue);
+        for job in jobs.iter() {
+            self.untrack_pending_key(&job.key);
+        }
+        jobs
+    }
+
     /// Set the draining status of the worker
     pub(crate) fn set_draining(&mut self, is_draining: bool) {
         self.is_draining = is_draining;
